@@ -182,11 +182,11 @@ type Facts struct {
 
 func Build(p *load.Program) *Facts {
 	f := &Facts{Prog: p, Enums: map[*types.Named]*Enum{}, Tables: map[*types.Var]*Table{}, sums: map[sumKey]*Summary{}, busy: map[sumKey]bool{}}
-	for _, rel := range load.LibPkgs {
+	for _, rel := range p.LibRels() {
 		pk := p.Lib(rel)
 		f.collectEnums(pk)
 	}
-	for _, rel := range load.LibPkgs {
+	for _, rel := range p.LibRels() {
 		pk := p.Lib(rel)
 		f.collectTables(pk)
 	}
@@ -404,6 +404,9 @@ func dataStruct(st *types.Struct) bool {
 func dataType(t types.Type, depth int) bool {
 	if depth > 6 {
 		return false
+	}
+	if _, ok := t.(*types.TypeParam); ok {
+		return true // a field of a generic row type: data whenever the rows of a literal table are
 	}
 	switch u := t.Underlying().(type) {
 	case *types.Basic:
